@@ -1,0 +1,9 @@
+//go:build !verif
+
+package go_clipper2
+
+// No-op counterparts of the verification event hooks (see verif_hooks.go,
+// build tag "verif"). They are empty and inlinable, so the default build is
+// unchanged apart from these calls compiling to nothing.
+
+func verifSplitDiscard(ip, a, b Point64, area1, area2 float64) {}
